@@ -27,7 +27,16 @@ def mk_requests(rng, n):
         fmt = gen.hostile_format(rng) if hf else gen.rand_format(rng)
         txt = gen.hostile_text(rng) if ht else gen.rand_value_text(rng)
         bsz = rng.choice([0, 1, 2, 3, 7, 8, 9, 10, 11, 15, 16, 17, 31, 32, 33, 63, 64, 255, 256, 257, 300, rng.randrange(0, 301)])
-        if k < .30:
+        if k < .04:
+            # the -e option's unescaper, in place on an exact-size copy
+            b = fmt if isinstance(fmt, bytes) else fmt.encode("utf-8", "surrogateescape")
+            cut = sorted(rng.randrange(len(b) + 1) for _ in range(rng.randrange(1, 4)))
+            for c_ in reversed(cut):
+                b = b[:c_] + rng.choice([b"\\", b"\\n", b"\\t", b"\\\\", b"\\w", b"\\a", b"\\v", b"\\x", b"\\\xff"]) + b[c_:]
+            if rng.random() < .4:
+                b += b"\\"
+            out.append(("E", req("E", b.replace(b"\0", b"")), "E:%s" % ("trail" if b.endswith(b"\\") else "mid")))
+        elif k < .30:
             out.append(("P", req("P", fmt if rng.random() < .85 else None, txt), "P:%s:%s" % ("hf" if hf else "nf", "ht" if ht else "nt")))
         elif k < .55:
             out.append(("F", req("F", None, gen.rand_value_text(rng), fmt, str(bsz)), "F:%s:bsz%s" % ("hf" if hf else "nf", "small" if bsz < 12 else "big")))
@@ -126,7 +135,11 @@ def tool_cases(rng, bindir, n):
             txt = txt.replace(b"\0", b"\x01").replace(b"\n", b" ")
         lines = [gen.hostile_text(rng) if rng.random() < .5 else gen.rand_value_text(rng) for _ in range(rng.randrange(1, 12))]
         stdin = b"\n".join(l if isinstance(l, bytes) else l.encode("utf-8", "surrogateescape") for l in lines) + b"\n"
-        if k == 0:
+        if rng.random() < .06:
+            # backslash escapes in formats (-e)
+            f2 = (fmt if isinstance(fmt, bytes) else fmt.encode("utf-8", "surrogateescape")) + rng.choice([b"\\", b"\\n", b"\\t\\", b"\\q"])
+            out.append(([T(rng.choice(["dconv", "dadd", "dround", "dseq", "strptime"])), "-e", "-f", f2, "--", gen.rand_value_text(rng), "1"], b"", "backslash-e"))
+        elif k == 0:
             out.append(([T("dconv"), "-f", fmt, "--", txt], b"", "dconv-f-arg"))
         elif k == 1:
             out.append(([T("dconv"), "-i", fmt, "--", txt], b"", "dconv-i-arg"))
